@@ -636,10 +636,10 @@ class J1939_22:
         elif control_byte == self.TpControlType.BAM:
             buffer_hash   = self._buffer_hash(session_num, src_address, dest_address)
             if buffer_hash in self._rcv_buffer:
-                # buffer already in use
+                # buffer already in use: the originator has started again (the end of its previous broadcast
+                # was lost on the way), the new announcement replaces the unfinished session
                 logger.info('bam receive buffer already in use 0x%x', buffer_hash )
                 del self._rcv_buffer[buffer_hash]
-                return
 
             # init new buffer for this connection
             self._rcv_buffer[buffer_hash] = {
